@@ -68,13 +68,24 @@ def value_of(op):
     return -m if op["neg"] else m
 
 
-def render_string(items, rnd):
+# (character name, charset) -> the bytes Data.tla gives the one-character string (None = refused); filled from the exported table rows
+CHAR_TABLE = {}
+LITERAL_CHARS = ("A", "z", "d7", "ya", "eacute", "alpha", "del")
+
+
+def render_string(items, rnd, cs=None):
     """items -> operand text: runs of characters/escapes become quoted chunks (delimiter chosen among
     \" ' / so that no unescaped copy of it occurs inside), <n> items become angle-bracketed bytes."""
     chunks = []           # ("q", [texts], forbidden delimiters) | ("raw", text)
     for it in items:
         if it["k"] == "raw":
             chunks.append(("raw", "<" + spell(it["v"], rnd) + ">"))
+            continue
+        if it["k"] == "ch" and cs is not None and it["c"] in LITERAL_CHARS and (it["c"], cs) in CHAR_TABLE and rnd.random() < 0.25 \
+                and (CHAR_TABLE[(it["c"], cs)] is None or len(CHAR_TABLE[(it["c"], cs)]) == 1):
+            # a character that the charset stores in ONE byte (or refuses) may also be written as the byte <'c>: a character literal
+            # has the value of its character's byte under the selected charset
+            chunks.append(("raw", "<'" + CHARS[it["c"]] + ">"))
             continue
         if it["k"] == "ch":
             txt = CHARS[it["c"]]
@@ -100,12 +111,18 @@ def render_string(items, rnd):
     return ("" if rnd.random() < 0.6 else " ").join(out)
 
 
-def render_stmt(s, rnd, idx=0):
+def render_stmt(s, rnd, idx=0, cs=None):
     d = s["d"]
     name = NAMES[d]
     if d in ("byte", "db", "word", "dw", "dword", "list"):
         sep = ", " if rnd.random() < 0.7 else ","
         ops = sep.join(spell(value_of(o), rnd) for o in s["ops"])
+        if s["ops"] and rnd.random() < 0.2:
+            # the first operand written as a constant defined just above: 'wq3 = 177777' / '.word wq3, 5' -- for an implicit word list
+            # this gives a statement that begins with (or consists only of) a name
+            rest = sep.join(spell(value_of(o), rnd) for o in s["ops"][1:])
+            first = f"wq{idx}"
+            return f"{first} = {spell(value_of(s['ops'][0]), rnd)}\n" + (name + " " + first + (sep + rest if rest else "")).strip()
         if d == "list" and (not ops[0].isdigit() or rnd.random() < 0.15):
             # pdpy11 continues an expression across a newline, so an implicit word list that starts with
             # '-' or '^' would be absorbed by the previous statement's last operand: start the line with a label
@@ -115,13 +132,13 @@ def render_stmt(s, rnd, idx=0):
         return name + " " + spell(s["n"], rnd)
     if d in ("even", "odd"):
         return name
-    return name + " " + render_string(s["items"], rnd)
+    return name + " " + render_string(s["items"], rnd, cs)
 
 
 def render(rec, variant):
     rnd = random.Random(variant)
     lines = [".link " + spell(rec["base"], rnd, ["oct", "dec", "0x"])]
-    lines += [render_stmt(s, rnd, i) for i, s in enumerate(rec["prog"])]
+    lines += [render_stmt(s, rnd, i, rec["cs"]) for i, s in enumerate(rec["prog"])]
     return "\n".join(lines) + "\n"
 
 
@@ -180,6 +197,8 @@ def check_table(recs):
         it = s["items"][0]
         ch = CHARS[it["c"]] if it["k"] == "ch" else ESCAPES[it["c"]][1]
         cs = rec["cs"]
+        if it["k"] == "ch":
+            CHAR_TABLE[(it["c"], cs)] = rec["image"] if rec["outcome"] == "ok" else None
         codec = cs if cs != "bk" else ("ascii" if ord(ch) < 128 else "koi8-r")   # bk: ASCII + KOI8-R Cyrillic
         try:
             want = list(ch.encode(codec))
